@@ -9,6 +9,7 @@ From NB Require Import Base.PyStr.
 From NB Require Import Diff.DiffFormat.
 From NB Require Import Diff.Patch.
 From NB Require Import Diff.Wf.
+From NB Require Import Ts.TsWf.
 From NB Require Import Ts.TsSplit.
 From NB Require Import Ts.TsSplitProofs.
 From NB Require Import Ts.TsPatch.
@@ -129,14 +130,14 @@ Qed.
 
 (* ---------- (b)+(c) one line's character diff ---------- *)
 Lemma wf_chars_chain n off : forall dd c ok,
-  wf_chars n c ok dd = true -> c <= n ->
+  wf_chars_c n c ok dd = true -> c <= n ->
   exists x, mapM (offset_entry off) dd = Ok x /\ chain (off + c) x /\ last_end (off + c) x <= off + n.
 Proof.
   induction dd as [|e r IH]; intros c ok H Hc.
   - exists []. simpl. unfold last_end. simpl. repeat split; auto. lia.
   - destruct e as [? ?|?|? ?|k vs|k len|? ?]; try discriminate.
     + destruct k as [k|]; [|discriminate]. destruct vs as [|x]; [discriminate|].
-      cbn [wf_chars] in H.
+      cbn [wf_chars_c] in H.
       apply andb_true_iff in H as [H H4]. apply andb_true_iff in H as [H H3].
       apply andb_true_iff in H as [_ H2]. apply Nat.leb_le in H2.
       assert (Hck : c <= k).
@@ -148,7 +149,7 @@ Proof.
       split; [reflexivity|]. rewrite last_end_cons. cbn [chain flat]. unfold end_of. cbn [knat dkey rlen].
       replace (k + off + 0) with (off + k) by lia. repeat split; auto. lia.
     + destruct k as [k|]; [|discriminate].
-      cbn [wf_chars] in H.
+      cbn [wf_chars_c] in H.
       apply andb_true_iff in H as [H H4]. apply andb_true_iff in H as [H H3].
       apply andb_true_iff in H as [_ H2]. apply Nat.leb_le in H2, H3.
       destruct (IH (k + len) true H4 H3) as [x' (E & C & L)].
@@ -159,7 +160,7 @@ Proof.
 Qed.
 
 Lemma val_inner_ok n : forall dd c ok,
-  wf_chars n c ok dd = true ->
+  wf_chars_c n c ok dd = true ->
   (fix go (dd : diff) : res unit :=
      match dd with
      | [] => Ok tt
@@ -169,7 +170,7 @@ Proof.
   induction dd as [|e r IH]; intros c ok H; [reflexivity|].
   destruct e as [? ?|?|? ?|i vs|i len|? ?]; try discriminate.
   - destruct i as [i|]; [|discriminate]. destruct vs as [|x]; [discriminate|].
-    cbn [wf_chars] in H.
+    cbn [wf_chars_c] in H.
     apply andb_true_iff in H as [H H4]. apply andb_true_iff in H as [H H3].
     apply andb_true_iff in H as [_ H2]. apply Nat.leb_le in H2.
     assert (E : validate_seq_op n (DAddRange (KI i) (VStr x)) = Ok tt).
@@ -177,7 +178,7 @@ Proof.
       assert (E : Nat.ltb n i = false) by (apply Nat.ltb_ge; lia). rewrite E. reflexivity. }
     rewrite E. cbn [bind]. eapply IH; eauto.
   - destruct i as [i|]; [|discriminate].
-    cbn [wf_chars] in H.
+    cbn [wf_chars_c] in H.
     apply andb_true_iff in H as [H H4]. apply andb_true_iff in H as [H H3].
     apply andb_true_iff in H as [H1 H2]. apply Nat.leb_le in H2, H3.
     apply negb_true_iff, Nat.eqb_neq in H1.
@@ -190,7 +191,7 @@ Proof.
 Qed.
 
 Lemma validate_patch_ok (lines : list pystr) k dd (line : pystr) :
-  nth_error lines k = Some line -> wf_chars (length line) 0 true dd = true ->
+  nth_error lines k = Some line -> wf_chars_c (length line) 0 true dd = true ->
   validate_string_diff lines (DPatch (KI k) dd) = Ok tt.
 Proof.
   intros Hn Hw. unfold validate_string_diff.
@@ -244,7 +245,7 @@ Section Entries.
   Qed.
 
   Lemma entry_patch k dd line :
-    nth_error lines k = Some line -> wf_chars (length line) 0 true dd = true ->
+    nth_error lines k = Some line -> wf_chars_c (length line) 0 true dd = true ->
     flatten_entry ltc (DPatch (KI k) dd) = mapM (offset_entry (L k)) dd
     /\ ts_flatten_entry lines' ltc' (DPatch (KI k) dd) = mapM (offset_entry (L k)) dd.
   Proof.
@@ -256,7 +257,7 @@ Section Entries.
   Qed.
 
   Lemma flatten_agree : forall d c ok,
-    wf_lines lines c ok d = true ->
+    wf_lines_c lines c ok d = true ->
     exists ch, flatten_entries ltc d = Ok ch
             /\ ts_flatten_entries lines' ltc' d = Ok ch
             /\ chain (L c) ch.
@@ -266,7 +267,7 @@ Section Entries.
     - destruct e as [? ?|?|? ?|k vs|k len|k dd]; try discriminate.
       + (* addrange of whole lines *)
         destruct k as [k|]; [|discriminate]. destruct vs as [l|]; [|discriminate].
-        cbn [wf_lines] in H.
+        cbn [wf_lines_c] in H.
         apply andb_true_iff in H as [H H5]. apply andb_true_iff in H as [H H4].
         apply andb_true_iff in H as [H H3]. apply andb_true_iff in H as [_ H2].
         apply Nat.leb_le in H3.
@@ -282,7 +283,7 @@ Section Entries.
         * unfold end_of. cbn [knat dkey rlen]. rewrite Nat.add_0_r. exact C.
       + (* removerange of whole lines *)
         destruct k as [k|]; [|discriminate].
-        cbn [wf_lines] in H.
+        cbn [wf_lines_c] in H.
         apply andb_true_iff in H as [H H4]. apply andb_true_iff in H as [H H3].
         apply andb_true_iff in H as [H1 H2]. apply Nat.leb_le in H2, H3.
         apply negb_true_iff, Nat.eqb_neq in H1.
@@ -297,7 +298,7 @@ Section Entries.
           replace (L k + (L (k + len) - L k)) with (L (k + len)) by lia. exact C.
       + (* patch inside one line *)
         destruct k as [k|]; [|discriminate].
-        cbn [wf_lines] in H.
+        cbn [wf_lines_c] in H.
         apply andb_true_iff in H as [H H3]. apply andb_true_iff in H as [H1 H2].
         apply Nat.leb_le in H1.
         destruct (nth_error lines k) as [line|] eqn:Hn; [|discriminate].
@@ -459,7 +460,7 @@ Qed.
 Theorem ts_patch_string_agrees :
   forall (rec : json -> diff -> res json) (s : pystr) (d : diff),
     only_nl_cr s = true ->
-    wf_lines (splitlines s) 0 true d = true ->
+    wf_lines_c (splitlines s) 0 true d = true ->
     (do r <- ts_patch_string s d; Ok (JStr r))
     = (do fd <- flatten (splitlines s) d;
        do r <- patch_list rec (chars s) fd;
@@ -496,7 +497,7 @@ Definition ex_d : diff :=
 Example ts_patch_string_agrees_nonvacuous :
   length (splitlines ex_s) = 2
   /\ only_nl_cr ex_s = true
-  /\ wf_lines (splitlines ex_s) 0 true ex_d = true
+  /\ wf_lines_c (splitlines ex_s) 0 true ex_d = true
   /\ (do r <- ts_patch_string ex_s ex_d; Ok (JStr r)) = Ok (JStr [97; 120; 98; 10]%N)
   /\ forall rec : json -> diff -> res json,
        (do fd <- flatten (splitlines ex_s) ex_d;
